@@ -386,7 +386,7 @@ fn generate_state_arms(
     super::verif_dump::dump_inlined(n_states, ctx.inlined_states());
 
     for (state_idx, state) in states.iter().enumerate() {
-        if state.predecessors.len() == 1 && !state.initial {
+        if ctx.is_inlined(StateIdx(state_idx)) {
             continue;
         }
 
@@ -556,7 +556,7 @@ fn generate_any_transition(
 ) -> TokenStream {
     let action = match trans {
         Trans::Trans(StateIdx(next_state)) => {
-            if states[*next_state].predecessors.len() == 1 {
+            if ctx.is_inlined(StateIdx(*next_state)) {
                 generate_state(ctx, *next_state, &states[*next_state], states)
             } else {
                 let StateIdx(next_state) = ctx.renumber_state(StateIdx(*next_state));
@@ -605,7 +605,7 @@ fn generate_state_char_arms(
     for (StateIdx(next_state), chars) in state_chars.iter() {
         let pat = quote!(#(#chars)|*);
 
-        let next = if states[*next_state].predecessors.len() == 1 {
+        let next = if ctx.is_inlined(StateIdx(*next_state)) {
             generate_state(ctx, *next_state, &states[*next_state], states)
         } else {
             let StateIdx(next_state) = ctx.renumber_state(StateIdx(*next_state));
@@ -671,7 +671,7 @@ fn generate_state_char_arms(
             quote!(#(#range_checks)||*)
         };
 
-        let next = if states[next_state].predecessors.len() == 1 {
+        let next = if ctx.is_inlined(StateIdx(next_state)) {
             generate_state(ctx, next_state, &states[next_state], states)
         } else {
             let StateIdx(next_state) = ctx.renumber_state(StateIdx(next_state));
